@@ -29,7 +29,8 @@ Record world := {
   w_api_closing : bool;      (* _ConnectedClientAPI.__closing *)
   w_lock : bool;             (* the send lock is held by a sender suspended on a slow peer *)
   w_guard : bool;            (* ... which also holds the endpoint's send ResourceGuard *)
-  w_used : nat               (* suspension points at which a label was consumed *)
+  w_used : nat;              (* suspension points at which a label was consumed *)
+  w_flushed : nat -> bool    (* asyncio adapter leaf i: write buffer flushed, connection_lost ran, fd released *)
 }.
 
 Record env := { e_forced : bool; e_timed : bool }.
@@ -39,22 +40,27 @@ Definition M := env -> world -> list xlabel -> res * world * list xlabel.
 Definition set_leaf (w : world) (i : nat) : world :=
   {| w_leaf := fun j => if Nat.eqb j i then true else w_leaf w j; w_tls_closing := w_tls_closing w;
      w_tls_closed := w_tls_closed w; w_api_closing := w_api_closing w; w_lock := w_lock w; w_guard := w_guard w;
-     w_used := w_used w |}.
+     w_used := w_used w; w_flushed := w_flushed w |}.
 Definition use (w : world) : world :=
   {| w_leaf := w_leaf w; w_tls_closing := w_tls_closing w; w_tls_closed := w_tls_closed w;
-     w_api_closing := w_api_closing w; w_lock := w_lock w; w_guard := w_guard w; w_used := S (w_used w) |}.
+     w_api_closing := w_api_closing w; w_lock := w_lock w; w_guard := w_guard w; w_used := S (w_used w); w_flushed := w_flushed w |}.
 Definition set_tls_closing (w : world) : world :=
   {| w_leaf := w_leaf w; w_tls_closing := true; w_tls_closed := w_tls_closed w;
-     w_api_closing := w_api_closing w; w_lock := w_lock w; w_guard := w_guard w; w_used := w_used w |}.
+     w_api_closing := w_api_closing w; w_lock := w_lock w; w_guard := w_guard w; w_used := w_used w; w_flushed := w_flushed w |}.
 Definition set_tls_closed (w : world) : world :=
   {| w_leaf := w_leaf w; w_tls_closing := w_tls_closing w; w_tls_closed := true;
-     w_api_closing := w_api_closing w; w_lock := w_lock w; w_guard := w_guard w; w_used := w_used w |}.
+     w_api_closing := w_api_closing w; w_lock := w_lock w; w_guard := w_guard w; w_used := w_used w; w_flushed := w_flushed w |}.
 Definition set_api_closing (w : world) : world :=
   {| w_leaf := w_leaf w; w_tls_closing := w_tls_closing w; w_tls_closed := w_tls_closed w;
-     w_api_closing := true; w_lock := w_lock w; w_guard := w_guard w; w_used := w_used w |}.
+     w_api_closing := true; w_lock := w_lock w; w_guard := w_guard w; w_used := w_used w; w_flushed := w_flushed w |}.
 Definition release_sender (w : world) : world :=    (* the suspended sender finished: lock and guard are free *)
   {| w_leaf := w_leaf w; w_tls_closing := w_tls_closing w; w_tls_closed := w_tls_closed w;
-     w_api_closing := w_api_closing w; w_lock := false; w_guard := false; w_used := w_used w |}.
+     w_api_closing := w_api_closing w; w_lock := false; w_guard := false; w_used := w_used w; w_flushed := w_flushed w |}.
+
+Definition set_flushed (w : world) (i : nat) : world :=
+  {| w_leaf := w_leaf w; w_tls_closing := w_tls_closing w; w_tls_closed := w_tls_closed w;
+     w_api_closing := w_api_closing w; w_lock := w_lock w; w_guard := w_guard w; w_used := w_used w;
+     w_flushed := fun j => if Nat.eqb j i then true else w_flushed w j |}.
 
 (* one suspension point *)
 Definition point : M := fun e w ls =>
@@ -80,12 +86,15 @@ Fixpoint points (m : nat) : M := fun e w ls =>
 (* ------------------------------------------------------------------ transports without TLS *)
 Inductive base :=
 | BLeaf (i : nat) (m : nat)            (* leaf i whose first aclose() has m suspension points *)
-| BStapled (s r : base).               (* AsyncStapledStreamTransport(send_transport=s, receive_transport=r) *)
+| BStapled (s r : base)                (* AsyncStapledStreamTransport(send_transport=s, receive_transport=r) *)
+| BAdapter (i : nat) (backlog : bool). (* AsyncioTransportStreamSocketAdapter over a real asyncio transport; backlog:
+                                          unflushed write data and a peer that is not reading when the close starts *)
 
 Fixpoint base_closing (b : base) (w : world) : bool :=
   match b with
   | BLeaf i _ => w_leaf w i
   | BStapled s r => base_closing s w && base_closing r w
+  | BAdapter i _ => w_leaf w i
   end.
 
 (* aclose_forcefully(t) = with move_on_after(0): await t.aclose() *)
@@ -110,6 +119,18 @@ Fixpoint base_aclose (b : base) : M := fun e w ls =>
           | other => other                            (* the forced close itself raised *)
           end
       end
+  | BAdapter i backlog =>
+      (* closing = True; transport.close(); try: await shield(close_waiter) except OSError: pass.
+         Without unflushed data connection_lost runs by itself; with a backlog the waiter only completes when the
+         peer has drained the data (XStep) or the connection is lost with an error (XRaise, swallowed). *)
+      if w_leaf w i && (negb backlog || w_flushed w i) then (ROk, w, ls)
+      else
+        let w1 := set_leaf w i in
+        if negb backlog || w_flushed w i then (ROk, set_flushed w1 i, ls)
+        else match point e w1 ls with
+             | (ROk, w2, ls2) | (RErr, w2, ls2) => (ROk, set_flushed w2 i, ls2)
+             | other => other
+             end
   end.
 
 (* ------------------------------------------------------------------ TLS *)
@@ -169,7 +190,18 @@ Definition tr_closing (t : tr) (w : world) : bool :=
 Definition tr_base (t : tr) : base := match t with TPlain b => b | TTls _ b => b end.
 
 Fixpoint leaves (b : base) : list nat :=
-  match b with BLeaf i _ => [i] | BStapled s r => leaves s ++ leaves r end.
+  match b with BLeaf i _ | BAdapter i _ => [i] | BStapled s r => leaves s ++ leaves r end.
+
+(* the file descriptor behind leaf i: released with the closing flag for an in-memory leaf, with the flush for an adapter *)
+Fixpoint fd_released (b : base) (w : world) (i : nat) : bool :=
+  match b with
+  | BLeaf j _ => w_leaf w i
+  | BAdapter j _ => if Nat.eqb i j then w_flushed w i else w_leaf w i
+  | BStapled s r => if existsb (Nat.eqb i) (leaves s) then fd_released s w i else fd_released r w i
+  end.
+
+Fixpoint no_backlog (b : base) : bool :=
+  match b with BLeaf _ _ => true | BAdapter _ bk => negb bk | BStapled s r => no_backlog s && no_backlog r end.
 
 (* ------------------------------------------------------------------ endpoints, clients *)
 (* AsyncStreamEndpoint.aclose / ConnectedStreamClient.aclose: with self.__send_guard: await transport.aclose() *)
@@ -262,6 +294,6 @@ Definition env0 : env := {| e_forced := false; e_timed := false |}.
 
 Definition world0 (lock : bool) : world :=
   {| w_leaf := fun _ => false; w_tls_closing := false; w_tls_closed := false; w_api_closing := false;
-     w_lock := lock; w_guard := lock; w_used := 0 |}.
+     w_lock := lock; w_guard := lock; w_used := 0; w_flushed := fun _ => false |}.
 
 Definition all_closed (b : base) (w : world) : bool := forallb (w_leaf w) (leaves b).
